@@ -34,6 +34,17 @@ CHECKS['C12'] = {
     'technique': 'finite abstract domain (equality partitions) enumerated exhaustively over MIR paths + element abstraction',
 }
 
+CHECKS['C18'] = {
+    'category': 'other',
+    'text': 'Invariant proof by induction over mutator histories for the 13 univariate distributions: every setter re-establishes each '
+            'derived (cached) field with the constructor\'s initialiser, validates with the constructor\'s guards, and update() routes every '
+            'parameter through these writers (or through new) without validating against a stale sibling; structs are Copy with private '
+            'fields, the crate has no statics, and sample() reaches no nondeterminism source other than alea\'s seeded generators.',
+    'design_ref': 'DESIGN.md 4.18, 3 (E-GRD field invariants, cache-coherent, setter-agree, update-order)',
+    'note': 'Trusted: alea 0.2.2 reproducibility given its seed. Value-level validity of accepted parameters (e.g. sigma = 0) is not decided.',
+    'technique': 'typestate / field-invariant analysis over MIR (writers, dominating guards, structural comparison of initialisers) + call-graph allow-list',
+}
+
 NOT_APPLICABLE = {
     'C09': 'accuracy of the Lanczos/asymptotic/Abramowitz-Stegun approximations over a continuum of arguments is a numerical '
            'quantity; no structural clause is a necessary condition without freezing coefficient tables (a brittle proxy); see DESIGN.md 4.9',
